@@ -370,16 +370,15 @@ Proof.
   - replace (S (length (x :: a) - 1)) with (length (x :: a)) by (cbn; lia). now apply take_le_all.
 Qed.
 
-Lemma read_loop_take fuel tn : forall x total notes iss del, TInv K x iss del ->
-  let x1 := fst (fst (fst (read_loop K fuel tn x total notes))) in
+Lemma read_loop_take fuel lim tn : forall x total notes iss del, TInv K x iss del ->
+  let x1 := fst (fst (fst (read_loop K fuel lim tn x total notes))) in
   exists moved, qev x = moved ++ qev x1 /\ tbuf x1 = tbuf x ++ moved /\ pend x1 = pend x /\
     Forall (fun e => ets e <= tn) moved /\
     (fuel <> 0%nat -> moved = [] -> qev x1 = [] \/ exists e r, qev x1 = e :: r /\ tn < ets e).
 Proof.
   induction fuel as [|f IH]; intros x total notes iss del T; cbn [read_loop].
   - exists []. cbn. rewrite app_nil_r. repeat split; auto. intro H; congruence.
-  - pose proof (read_loop_inv K (S f) tn x total notes iss del T) as _.
-    pose proof T as [Hc Hs Hr Ha Hp Hx].
+  - pose proof T as [Hc Hs Hr Ha Hp Hx].
     pose proof (pr_cases K (q x) Hs) as (S1 & R1 & A1 & W1 & F1).
     assert (Hnone : snd (prepare_read ideal (c_cap K) (q x)) = None -> qev x = []).
     { unfold prepare_read. intro H. apply (empty_true_nil K x iss del T).
@@ -395,24 +394,24 @@ Proof.
     apply N.ltb_ge in Ets.
     assert (Hrec : recs (q x) = esz e :: map esz rest) by (rewrite Hr; reflexivity).
     specialize (F1 ltac:(discriminate) _ _ Hrec).
-    assert (Tmove : forall c, TInv K (set_thr_tbuf (set_thr_q x (finish_read ideal q1 (esz e)) rest) (tbuf x ++ [e]) c) iss del).
-    { intro c. constructor; cbn [set_thr_tbuf set_thr_q q qev tbuf texists]; auto.
+    assert (Tmove : forall c g, TInv K (sh g (set_thr_tbuf (set_thr_q x (finish_read ideal q1 (esz e)) rest) (tbuf x ++ [e]) c)) iss del).
+    { intros c g. apply TInv_sh. constructor; cbn [set_thr_tbuf set_thr_q q qev tbuf texists]; auto.
       - rewrite Hc, map_app. cbn. now rewrite <- app_assoc.
       - cbn [finish_read recs]. rewrite R1, Hrec. reflexivity.
       - cbn [finish_read aw wpos]. congruence.
       - now inversion Hp.
       - intros; discriminate. }
-    assert (Hgo : forall c,
-      let x1 := set_thr_tbuf (set_thr_q x (finish_read ideal q1 (esz e)) rest) (tbuf x ++ [e]) c in
-      let r := if (total + esz e <? c_cap K) && (N.of_nat (length (tbuf x1)) <? c_hard K)
-               then read_loop K f tn x1 (total + esz e) (notes ++ fmt_notes e)
+    assert (Hgo : forall c g,
+      let x1 := sh g (set_thr_tbuf (set_thr_q x (finish_read ideal q1 (esz e)) rest) (tbuf x ++ [e]) c) in
+      let r := if (total + esz e <? lim) && (N.of_nat (length (tbuf x1)) <? c_hard K)
+               then read_loop K f lim tn x1 (total + esz e) (notes ++ fmt_notes e)
                else (x1, total + esz e, notes ++ fmt_notes e, false) in
       exists moved, e :: rest = moved ++ qev (fst (fst (fst r))) /\ tbuf (fst (fst (fst r))) = tbuf x ++ moved /\
         pend (fst (fst (fst r))) = pend x /\ Forall (fun e => ets e <= tn) moved /\
         (S f <> 0%nat -> moved = [] -> qev (fst (fst (fst r))) = [] \/ exists e' r', qev (fst (fst (fst r))) = e' :: r' /\ tn < ets e')).
-    { intros c x1 r. unfold r. destruct ((total + esz e <? c_cap K) && (N.of_nat (length (tbuf x1)) <? c_hard K)).
-      - destruct (IH x1 (total + esz e) (notes ++ fmt_notes e) iss del (Tmove c)) as (mv & M1 & M2 & M3 & M4 & _).
-        exists (e :: mv). cbn [qev tbuf pend set_thr_tbuf set_thr_q x1] in *. repeat split.
+    { intros c g x1 r. unfold r. destruct ((total + esz e <? lim) && (N.of_nat (length (tbuf x1)) <? c_hard K)).
+      - destruct (IH x1 (total + esz e) (notes ++ fmt_notes e) iss del (Tmove c g)) as (mv & M1 & M2 & M3 & M4 & _).
+        exists (e :: mv). cbn [qev tbuf pend set_thr_tbuf sh set_thr_uqs set_thr_q x1] in *. repeat split.
         + cbn. now rewrite <- M1.
         + rewrite M2. now rewrite <- app_assoc.
         + exact M3.
@@ -435,12 +434,12 @@ Proof.
   unfold bstep. rewrite Hpc.
   pose proof (proj1 G u) as T.
   unfold read_queue.
-  pose proof (read_loop_take (S (length (qev (th s u)))) (tsnow s) (th s u) 0 [] _ _ T) as Hm.
-  pose proof (read_loop_no_escape K (S (length (qev (th s u)))) (tsnow s) Hcatch (th s u) 0 []) as Hesc.
-  destruct (read_loop K (S (length (qev (th s u)))) (tsnow s) (th s u) 0 []) as [[[x1 total] notes] esc].
+  pose proof (read_loop_take (S (length (qev (th s u)))) (read_limit K (th s u)) (tsnow s) (th s u) 0 [] _ _ T) as Hm.
+  pose proof (read_loop_no_escape K (S (length (qev (th s u)))) (read_limit K (th s u)) (tsnow s) Hcatch (th s u) 0 []) as Hesc.
+  destruct (read_loop K (S (length (qev (th s u)))) (read_limit K (th s u)) (tsnow s) (th s u) 0 []) as [[[x1 total] notes] esc].
   cbn [fst snd] in Hm, Hesc. subst esc.
   destruct Hm as (moved & M1 & M2 & M3 & M4 & M5). specialize (M5 ltac:(discriminate)).
-  set (x2 := if total =? 0 then x1 else set_thr_q x1 (commit_read ideal (c_batch K) (c_pub K) (q x1)) (qev x1)).
+  set (x2 := if total =? 0 then x1 else sh (u_commit_read K) (set_thr_q x1 (commit_read ideal (c_batch K) (c_pub K) (q x1)) (qev x1))).
   assert (X2 : qev x2 = qev x1 /\ tbuf x2 = tbuf x1 /\ pend x2 = pend x1) by (unfold x2; destruct (total =? 0); auto).
   destruct X2 as (X2q & X2t & X2p).
   exists [Ord.BReadQ (length moved - 1)]. rewrite ostep1. cbn [Ord.step]. rewrite B6, Hpc. cbn [apc].
@@ -770,7 +769,7 @@ Fixpoint WG (s : st) (ops : list op) : Prop :=
   match ops with [] => True | o :: r => wg s o /\ WG (step K s o) r end.
 
 Definition init_ok (s0 : st) : Prop :=
-  (forall t, th s0 t = thr0 /\ issued s0 t = [] /\ delivered s0 t = []) /\ registered s0 = [] /\ cache s0 = [] /\
+  (forall t, fresh_thr (th s0 t) /\ issued s0 t = [] /\ delivered s0 t = []) /\ registered s0 = [] /\ cache s0 = [] /\
   newflag s0 = false /\ invalid_cnt s0 = 0 /\ plog s0 = [] /\ pc s0 = PIdle /\ tsnow s0 = 0 /\ g <= clock s0.
 
 Lemma sim_run ops : forall s a, Big s -> R s a -> Ord.Inv g a -> pos_ops ops -> WG s ops ->
@@ -796,12 +795,12 @@ Proof.
                Ord.registered := []; Ord.cache := []; Ord.pc := Ord.Idle; Ord.out := [] |}).
   assert (HR0 : R s0 a0).
   { constructor; cbn; auto; try congruence.
-    - intro u. destruct (H0 u) as (-> & _). reflexivity.
+    - intro u. destruct (H0 u) as ((v & ->) & _). reflexivity.
     - now rewrite Hpc.
     - now rewrite Hpl. }
   assert (B0 : Big s0).
   { split; [|split].
-    - split; [intro u; destruct (H0 u) as (-> & -> & ->); apply TInv_thr0|intros u e; destruct (H0 u) as (-> & _); discriminate].
+    - split; [intro u; destruct (H0 u) as ((v & ->) & -> & ->); apply TInv_fresh|intros u e; destruct (H0 u) as ((v & ->) & _); discriminate].
     - constructor; rewrite ?Hr, ?Hc, ?Hi; cbn; [constructor|reflexivity|intros ? []].
     - intros _. congruence. }
   destruct (sim_run ops s0 a0 B0 HR0 (Ord.inv_init_at g (clock s0) Hg) Hp Hw) as (a' & HR' & I' & _).
